@@ -31,6 +31,7 @@ def run(tier, seed):
         series = tq.with_patch_options(tq.enumerate_series(3, 1, allow_after_failure=1), 1) + tq.with_patch_options(tq.enumerate_series(2, 2, allow_after_failure=1), 2)
         cfgs = configs(tier)
         bounds = 'Q<=3,D<=1 and Q<=2,D<=2'
+    series = series + tq.special_series(m0)
     seen, uniq = set(), []
     for s in series:
         k = tq.describe_series(s)
